@@ -32,7 +32,7 @@ def ratform(t, cache=None):
         cache = {}
     k = t.get_id()
     if k in cache:
-        return cache[k]
+        return cache[k][0]
     one = z3.RealVal(1)
     d = t.decl().kind()
     if z3.is_rational_value(t) or z3.is_const(t):
@@ -92,7 +92,7 @@ def ratform(t, cache=None):
             r = (n, dd)
     else:
         raise ValueError(f"ratform: unsupported {t.decl()}")
-    cache[k] = r
+    cache[k] = (r, t)  # keep t alive: AST ids are reused after garbage collection
     return r
 
 
@@ -100,10 +100,10 @@ def som(t):
     return z3.simplify(t, som=True, som_blowup=SOM_BLOWUP)
 
 
-def cross_diff(a, b):
+def cross_diff(a, b, cache=None):
     "polynomial whose vanishing (with nonzero denominators) is a == b; plus the two denominators"
-    n1, d1 = ratform(a)
-    n2, d2 = ratform(b)
+    n1, d1 = ratform(a, cache)
+    n2, d2 = ratform(b, cache)
     if d1.eq(d2):
         return som(n1 - n2), d1, d2
     return som(n1 * d2 - n2 * d1), d1, d2
@@ -548,8 +548,27 @@ class SNum:
     def __float__(s):
         raise TypeError("symbolic value reached a float() boundary")
 
+    # numpy ufuncs on objects dispatch to methods of the same name (np.log(x) -> x.log()):
+    # transcendental functions are uninterpreted for the solver.
+    def log(s):
+        return SNum(UF_LOG(s.e), None)
+
+    def exp(s):
+        return SNum(UF_EXP(s.e), 1)
+
+    def log1p(s):
+        return SNum(UF_LOG(1 + s.e), None)
+
+    def log2(s):
+        return SNum(UF_LOG2(s.e), None)
+
     def __repr__(s):
         return f"<{z3.simplify(s.e)}>"
+
+
+UF_LOG = z3.Function("log", z3.RealSort(), z3.RealSort())
+UF_EXP = z3.Function("exp", z3.RealSort(), z3.RealSort())
+UF_LOG2 = z3.Function("log2", z3.RealSort(), z3.RealSort())
 
 
 # --------------------------------------------------------------------------------------
@@ -616,15 +635,27 @@ class SymSW(Domain):
             v = self.vars[k] = z3.Real(f"{self.prefix}{k}")
         return v
 
+    fixed = {}
+
+    def _present(self, k, v, positive):
+        "zero / non-zero pattern of weight k: fixed by the job, always present, or an eager fork"
+        f = self.fixed.get(str(k), self.fixed.get(k))
+        if f is not None:
+            E.ENG._assert(v > 0 if f else v == 0)
+            return bool(f)
+        if positive:
+            E.ENG._assert(v > 0)
+            return True
+        if E.ENG.fork_free(v == 0):
+            return False
+        E.ENG._assert(v > 0)
+        return True
+
     def var(self, k, positive=False):
         "free weight in [0, inf): eager fork on zero (unless declared always present)"
         v = self.zvar(k)
-        if not positive and E.ENG.fork_free(v == 0):
+        if not self._present(k, v, positive):
             return SW.zero
-        if positive:
-            E.ENG._assert(v > 0)
-        else:
-            E.ENG._assert(v > 0)
         E.ENG.posvars.add(v.get_id())
         return SW(v, True)
 
@@ -668,13 +699,19 @@ class SymNum(Domain):
 
     zvar = SymSW.zvar
 
+    fixed = {}
+    _present = SymSW._present
+
     def var(self, k, positive=False):
         v = self.zvar(k)
-        if not positive and E.ENG.fork_free(v == 0):
+        if not self._present(k, v, positive):
             return 0
-        E.ENG._assert(v > 0)
         E.ENG.posvars.add(v.get_id())
         return SNum(v, 1)
+
+    def svar(self, k):
+        "free real of unknown sign (no eager fork)"
+        return SNum(self.zvar(k), None)
 
     def const(self, x):
         return x
@@ -738,6 +775,8 @@ class ConcNum(Domain):
     def var(self, k, positive=False):
         v = self.values.get(k, Fraction(0))
         return 0 if v == 0 else v
+
+    svar = var
 
     def const(self, x):
         return x
